@@ -66,6 +66,7 @@ type Frame struct {
 	retVals []Val
 	srcMap  map[token.Pos]string
 	matched map[*Clause]bool
+	lastRes map[string]Val
 	callCallee   *ssa.Function
 	callBindings []Val
 	frameLo, frameHi string // position range of the element write being frame-checked
@@ -283,6 +284,10 @@ func (fr *Frame) envAt(b *ssa.BasicBlock, idx int, st *State, phiMap map[*ssa.Ph
 	}
 	env.lookup = func(name string) (Val, bool) {
 		return fr.resolveAt(name, b, idx, st, phiMap)
+	}
+	env.lastResult = func(name string) (Val, bool) {
+		v, ok := fr.lastRes[name]
+		return v, ok
 	}
 	env.visitedComp = func() string {
 		// the iterator of the innermost map-range loop around (b, idx): the last one whose Range dominates
@@ -606,7 +611,7 @@ func (e *Engine) totalHavocG(st *State, keepGhosts bool) *State {
 // ------------------------------------------------------------------ function execution
 
 func (e *Engine) newFrame(fn *ssa.Function, prefix string) *Frame {
-	fr := &Frame{e: e, fn: fn, vals: map[ssa.Value]Val{}, sites: map[string][]defSite{}, ordinal: map[string]int{}, callOrd: map[string]int{}, prefix: prefix, iters: map[*ssa.Range]string{}, matched: map[*Clause]bool{}}
+	fr := &Frame{e: e, fn: fn, vals: map[ssa.Value]Val{}, sites: map[string][]defSite{}, ordinal: map[string]int{}, callOrd: map[string]int{}, prefix: prefix, iters: map[*ssa.Range]string{}, matched: map[*Clause]bool{}, lastRes: map[string]Val{}}
 	fr.spec = e.specFor(fn)
 	return fr
 }
@@ -1282,7 +1287,9 @@ func (fr *Frame) value(v ssa.Value) Val {
 			args = append(args, fr.val(a))
 		}
 		fv := fr.val(x.Call.Value)
-		return fr.callCommon(&x.Call, args, fv, x, "call")
+		res := fr.callCommon(&x.Call, args, fv, x, "call")
+		fr.noteResult(&x.Call, res)
+		return res
 	case *ssa.ChangeType:
 		a := fr.val(x.X)
 		a.Ty = x.Type()
@@ -2245,4 +2252,41 @@ func (fr *Frame) returnOrdinal() int {
 		}
 	}
 	return 0
+}
+
+// remember the latest result of each callee (by short name; for calls through a function-typed variable, by the
+// variable's name) so that call-site assertions can refer to it: lastresult("name")
+func (fr *Frame) noteResult(cc *ssa.CallCommon, res Val) {
+	first := res
+	if len(res.Tuple) > 0 {
+		first = res.Tuple[0]
+	}
+	var names []string
+	if cc.IsInvoke() {
+		names = append(names, cc.Method.Name())
+	} else if f := cc.StaticCallee(); f != nil {
+		names = append(names, f.Name())
+		if i := strings.LastIndex(f.String(), "."); i >= 0 {
+			names = append(names, f.String()[i+1:])
+		}
+	} else {
+		v := cc.Value
+		if u, ok := v.(*ssa.UnOp); ok {
+			v = u.X
+		}
+		switch x := v.(type) {
+		case *ssa.FreeVar:
+			names = append(names, x.Name())
+		case *ssa.Parameter:
+			names = append(names, x.Name())
+		case *ssa.Alloc:
+			names = append(names, x.Comment)
+		}
+	}
+	for _, n := range names {
+		fr.lastRes[n] = first
+		if k := fr.sourceOrdinal(n); k > 0 {
+			fr.lastRes[fmt.Sprintf("%s#%d", n, k)] = first
+		}
+	}
 }
